@@ -83,6 +83,20 @@ def snapshot(x):
     return ("other", repr(x))
 
 
+def float_snapshot(x):
+    """value-level view of a polynomial with non-integral coefficients (dtype excluded: it legitimately
+    depends on which terms survive cleaning; the VALUE must not)"""
+    els = []
+    for i in range(x.size):
+        d = {}
+        for e, c in zip(x.exponents.tolist(), x.coefficients):
+            v = float(numpy.asarray(c).ravel()[i])
+            if v:
+                d[tuple(e)] = d.get(tuple(e), 0.0) + v
+        els.append(tuple(sorted(d.items())))
+    return ("polyf", tuple(x.shape), tuple(els))
+
+
 def run(report, tier, seed):
     from harness.translators import optread_tr
     tr_ok = True
@@ -98,7 +112,7 @@ def run(report, tier, seed):
     defaults = numpoly.get_options(defaults=True)
     numpoly.set_options(**defaults)
     settings = settings_for(rng, tier, defaults)
-    ncases = 150 if tier == "quick" else 400
+    ncases = 240 if tier == "quick" else 500
     E = catalogue.entries()
     n_eval = 0
     nontrivial = set()
@@ -110,7 +124,7 @@ def run(report, tier, seed):
 
     def make_case():
         """returns (label, thunk, varies) — varies: the option keys the case may legitimately depend on"""
-        kind = rng.choice(["construct", "binary", "binary", "power", "derivative", "gradient", "hessian", "call", "call_partial",
+        kind = rng.choice(["construct", "construct_mixed", "division", "division", "binary", "binary", "power", "derivative", "derivative", "gradient", "hessian", "call", "call_partial",
                            "index", "align", "pickle", "catalogue", "catalogue", "order", "text", "todict", "set_dimensions"])
         if kind == "construct":
             D = rng.randint(1, 3)
@@ -119,6 +133,27 @@ def run(report, tier, seed):
             shape = gen.rand_shape(rng, 2)
             cols = [numpy.array([rng.choice([0, 0, 1, -2, 3]) for _ in range(int(numpy.prod(shape)) if shape else 1)]).reshape(shape) for _ in rows]
             return kind, (lambda: numpoly.polynomial_from_attributes(rows, cols, names)), set(), None
+        if kind == "construct_mixed":
+            # coefficient collections of mixed dtypes, a redundant (all-zero, non-constant) term first
+            rows = [(1,), (2,), (0,)][: rng.randint(2, 3)]
+            vals = [rng.choice([0, 0, 1, 2]), rng.choice([1.5, 2.5, -0.5]), rng.choice([0, 3])][: len(rows)]
+            if rng.random() < 0.5:
+                d = dict(zip(rows, vals))
+                return kind, (lambda: float_snapshot(numpoly.polynomial(d))), set(), None
+            cols = [numpy.array([v, v], dtype=(int if isinstance(v, int) else float)) for v in vals]
+            return kind, (lambda: float_snapshot(numpoly.polynomial_from_attributes(rows, cols))), set(), None
+        if kind == "division":
+            # division is checked under the default retain options: only the other keys vary
+            from harness.props import c05
+            names = tuple(sorted(rng.sample([0, 1, 2], rng.choice([1, 2, 2, 3]))))
+            s1, s2 = gen.broadcast_pair(rng, 2)
+            g = c05.rand_poly(rng, s2, names, rng.randint(1, 3), 2, divisor=True)
+            f = c05.rand_poly(rng, s1, names, rng.randint(1, 4), 3)
+
+            def div():
+                q, r, _ = c05.guarded_divmod(f, g)
+                return float_snapshot(q), float_snapshot(r)
+            return kind, div, {"retain_names", "retain_coefficients"}, None
         if kind in ("binary", "power"):
             a, b = gen.rand_operand_pair(rng)
             if kind == "power":
@@ -130,9 +165,14 @@ def run(report, tier, seed):
             return f"binary{op}", f, set(), ("bin", op, a, b)
         if kind in ("derivative", "gradient", "hessian"):
             p = mk(gen.rand_shape(rng, 2))
+            if kind == "derivative" and rng.random() < 0.5:     # low exponents: a derivative can remove an indeterminate
+                p = gen.rand_poly(rng, gen.rand_shape(rng, 1), rng.choice([(0, 1), (0, 1, 2), (1, 2)]), nterms=rng.choice([1, 2]),
+                                  maxexp=1, dtype=numpy.int64, raw=False)
             if kind == "derivative":
-                v = rng.choice(p.names)
-                return kind, (lambda: numpoly.derivative(p, v)), set(), None
+                # one to three differentiation variables, by name or position (successive differentiation may
+                # remove an indeterminate completely)
+                vs = [rng.choice(p.names) if rng.random() < 0.6 else rng.randrange(len(p.names)) for _ in range(rng.choice([1, 2, 2, 3]))]
+                return kind, (lambda: numpoly.derivative(p, *vs)), set(), None
             return kind, (lambda: getattr(numpoly, kind)(p)), set(), None
         if kind in ("call", "call_partial"):
             p = mk(gen.rand_shape(rng, 2))
